@@ -121,7 +121,12 @@ func (w *c07wEnv) nilness(g *epb.VMGoldenMeasurement, replay string) {
 		chk("svsm", s.SvsmMeasurement)
 		chk("sev.ca_bundle", s.CaBundle)
 		if (s.Measurements == nil) != (len(s.Measurements) == 0) {
-			c.Find("c07wire/shape/empty-map-not-nil", "after proto.Unmarshal the measurement map is empty but not nil", replay)
+			// protobuf-go allocates the map when it meets the field and can leave it empty (an entry of the wrong
+			// wire type is skipped as unknown): empty-but-not-nil is reachable.  Every reader in scope treats the
+			// two alike (verify.SNP refuses both — "no measurements" vs "no measurement for n" — and ranges over
+			// either; the models test emptiness), so this is counted, not a finding; the outcome classes of such
+			// inputs are compared with the model by the ops of this stream like any other.
+			c.Count("nilness/map-empty-but-not-nil")
 		}
 		if s.Measurements == nil {
 			c.Count("nilness/map-nil")
